@@ -158,6 +158,14 @@ def judge(c):
     lt, le, gt, ge = [x == "1" for x in I[4].split()]
     if (lt, le, gt, ge) != (ka < kb, ka <= kb, ka > kb, ka >= kb):
         res.append(("violation", "%s vs %s: < <= > >= = %s inconsistent with (days, seconds) %s %s" % (a, b, I[4], ka, kb)))
+    # ... and from the rule of the property itself: a year counts as the calendar's
+    # common-year length, a month as 30 days (integer regime only: decimals are
+    # compared within float tolerance by the correspondence above)
+    if "/" not in a + b:
+        ra, rb = rough(md, a), rough(md, b)
+        if (lt, le, gt, ge) != (ra < rb, ra <= rb, ra > rb, ra >= rb):
+            res.append(("violation", "mode %s: %s vs %s: < <= > >= = %s but counting a year as %d days and a month as 30 "
+                        "the lengths are %s s and %s s" % (md, a, b, I[4], COMMON_YEAR[md], ra, rb)))
     rlt, rle, rgt, rge = [x == "1" for x in I[5].split()]
     if (lt, le, gt, ge) != (rgt, rge, rlt, rle):
         res.append(("violation", "a<b etc. %s not the mirror of b<a etc. %s for a=%s b=%s" % (I[4], I[5], a, b)))
@@ -176,6 +184,14 @@ def parse(d):
     y, mo, dd = int(t[1]), int(t[2]), int(t[3])
     h, mi, s = Fraction(t[4]), Fraction(t[5]), Fraction(t[6])
     return (y, mo, dd * 86400 + h * 3600 + mi * 60 + s)
+
+
+COMMON_YEAR = {"G": 365, "360": 360, "365": 365, "366": 366}
+
+
+def rough(md, d):
+    y, mo, secs = parse(d)
+    return ((y or 0) * COMMON_YEAR[md] + (mo or 0) * 30) * 86400 + secs
 
 
 def nominal(d):
